@@ -417,7 +417,7 @@ import bounded.tsp_solve  # noqa: E402
 PLANS["C06"] = Plan(
     "C06", "proof",
     functions=[REV + ":rev_if_not_worse", FEA + ":rev_if_h_not_worse", REV + ":TSPEA1p1revn.solve",
-               FEA + ":TSPFEA1p1revn.solve"],
+               FEA + ":TSPFEA1p1revn.solve", "moptipyapps.tsp.instance:Instance.__new__#dtype"],
     lemmas=["path_split", "path_frame", "path_left", "path_rev", "path_bound", "tour_le_ub"],
     bounded=[bounded.tsp_solve.harness],
     explanation="kernels: permutation preserved, returned length exact (segment-reversal lemmas proved by induction), "
@@ -430,7 +430,7 @@ PLANS["C06"] = Plan(
 PLANS["C05"] = Plan(
     "C05", "proof",
     functions=[TL + ":tour_length", "moptipyapps.tsp.instance:Instance.__new__",
-               "moptipyapps.tsp.instance:Instance.__new__#copy-check"],
+               "moptipyapps.tsp.instance:Instance.__new__#copy-check", "moptipyapps.tsp.instance:Instance.__new__#dtype"],
     lemmas=["cyc_is_tour", "rmax_ge", "rmin_le", "cyc_le_max", "cyc_ge_min", "tour_within_instance_bounds"],
     extra=[leancheck.lean_prover(["A3.lean"], "C05")],
     bounded=[bounded.tsp_instance.harness],
